@@ -20,7 +20,7 @@ RULE = (
     "(thorough; quick: d=2 M<=4,k<=2 for B_2/C2^2/C4 + d=3 M<=3,k<=1). Each tuple: both scale modes. Non-trivial: expected "
     "dimension >= 1 (dimension-0 tuples are still checked: the family must be empty); distinct by tuple."
 )
-RULE += " Also: operator lists in shuffled order (2 of 3 cases), a decoy request for another group of equal order first, and (thorough) the two HEAVY tuples d=3 M=5 k=3 for C3 and C4z."
+RULE += " Assembly functions are called with the parities / orders in varying order and container; each family is re-checked under the key it is filed under. Also: operator lists in shuffled order (2 of 3 cases), a decoy request for another group of equal order first, and (thorough) the two HEAVY tuples d=3 M=5 k=3 for C3 and C4z."
 EXHAUSTIVE = {"quick": True, "thorough": True}
 ASSUMPTIONS = [
     "reference action; character formula (1/|G|) sum_g fix(g) tr(g)^k det(g)^p evaluated in integers",
@@ -206,15 +206,24 @@ def run(case, ctx):
         # assembly (dict / list / MultiImage) for this M with both parities of this k and of k=0
         if not viols and not case.get("heavy"):
             ks = sorted({0, k})
-            fd, maxn = geom.get_invariant_filters_dict([M], ks, [0, 1], D, ops)
-            fl = geom.get_invariant_filters_list([M], ks, [0, 1], D, ops)
-            fm = geom.get_invariant_filters([M], ks, [0, 1], D, ops) if len(fl) else None
+            # the request lists are sets as far as the statement goes: any order / container of the parities and orders must
+            # give, under each key (k,p), the family of THAT type
+            par_arg = [[0, 1], [1, 0], (1, 0), [1], (0, 1), [0]][case["i"] % 6]
+            ks_arg = ks[::-1] if case["i"] % 2 else tuple(ks)
+            fd, maxn = geom.get_invariant_filters_dict([M], ks_arg, par_arg, D, ops)
+            fl = geom.get_invariant_filters_list([M], ks_arg, par_arg, D, ops)
+            fm = geom.get_invariant_filters([M], ks_arg, par_arg, D, ops) if len(fl) else None
             evals += 3
             viols += _mon.take()
-            counts = {(kk, pp): rinv.invariant_dim(ops, M, D, kk, pp) for kk in ks for pp in (0, 1)}
+            counts = {(kk, pp): rinv.invariant_dim(ops, M, D, kk, pp) for kk in ks for pp in sorted(set(par_arg))}
             for (kk, pp), c in counts.items():
                 if len(fd[(D, M, kk, pp)]) != c:
-                    viols.append(viol("assembly-dict", f"dict assembly holds {len(fd[(D, M, kk, pp)])} filters for {(kk, pp)}, expected {c}; {key}"))
+                    viols.append(viol("assembly-dict", f"dict assembly holds {len(fd[(D, M, kk, pp)])} filters for {(kk, pp)}, expected {c} (parities given as {par_arg}, orders as {ks_arg}); {key}"))
+                for f in fd[(D, M, kk, pp)]:
+                    a = np.asarray(f.data, dtype=np.float64)
+                    if f.parity != pp or f.k != kk or any(np.max(np.abs(ract.act(D, a, kk, pp, g) - a)) > 1e-6 * max(1.0, np.max(np.abs(a))) for g in ops):
+                        viols.append(viol("assembly-dict-wrong-family", f"the family filed under {(kk, pp)} is not invariant as a ({kk},{pp}) filter / declares (k={f.k}, parity={f.parity}) (parities given as {par_arg}, orders as {ks_arg}); {key}"))
+                        break
             if len(fl) != sum(counts.values()):
                 viols.append(viol("assembly-list", f"list assembly has {len(fl)} filters, expected {sum(counts.values())}; {key}"))
             if fm is not None:
